@@ -217,7 +217,12 @@ def handleKernel (j : Json) : Except String Verdict := do
     | some (_ :: ls) => if ls = rows then none else some s!"sim:{keyStr f.1}"
     | some [] => if rows = [] then none else some s!"sim:{keyStr f.1}"
     | none => some s!"sim-nofile:{keyStr f.1}"))).getD []
-  let agreeWhy := fileDiffs ++ memDiffs ++ simDiffs
+  -- run-time check of the hypothesis of `trace_stamps_sorted` on this nest, for every traced key
+  let wnDiffs := traced.filterMap (fun k =>
+    match keyLevel levels k.1 with
+    | some i => if wn k (k.2 == "iter") i D nest then none else some s!"wn:{keyStr k}"
+    | none => if noKey k D nest then none else some s!"wn-unknown-rank:{keyStr k}")
+  let agreeWhy := fileDiffs ++ memDiffs ++ simDiffs ++ wnDiffs
   -- specification on the implementation's files
   let first := (implFiles.head?.map (·.2)).getD []
   let specFails := first.flatMap (fun f =>
